@@ -155,7 +155,7 @@ func (n *Net) Step(a Arrival, j string) ([]map[string]any, Outcome) {
 	}
 	in := bytes.Clone(a.Raw)
 	p := v.NewPacket(in, via, a.Src)
-	pre := n.C.Proj(in, true)
+	pre := n.C.Proj(in, "win")
 	inif := 0
 	if a.Scope == "ext" {
 		inif = int(a.If)
@@ -168,7 +168,7 @@ func (n *Net) Step(a Arrival, j string) ([]map[string]any, Outcome) {
 	ev["egress"] = int(res.Egress)
 	ev["out"] = scopeName(res.OutLink)
 	ev["dst"] = udpStr(res.Dst)
-	ev["post"] = n.C.Proj(out, false)
+	ev["post"] = n.C.Proj(out, "none")
 	ev["diff"] = Diff(in, out)
 	ev["lenout"] = len(out)
 	ev["slow"] = map[string]any{"type": int(res.SlowType), "code": int(res.SlowCode),
@@ -186,7 +186,7 @@ func (n *Net) Step(a Arrival, j string) ([]map[string]any, Outcome) {
 			"scope": a.Scope, "inif": inif, "err": err != nil, "out": scopeName(r2.OutLink),
 			"dst": udpStr(r2.Dst), "len": len(rep), "egress": int(r2.Egress),
 			"built": err == nil && !bytes.Equal(rep[:min(len(rep), len(out))], out),
-			"m": ScmpProj(n.C, rep), "pkt": n.C.Proj(rep, true), "quoteok": quoteOK(rep, out)}
+			"m": ScmpProj(n.C, rep), "pkt": n.C.Proj(rep, "full"), "quoteok": quoteOK(rep, out)}
 		evs = append(evs, se)
 		if err != nil || r2.OutLink == nil {
 			return evs, Outcome{Kind: "end", Disp: "slow"}
